@@ -8,9 +8,13 @@ mod util;
 mod ops_pattern;
 mod ops_summary;
 mod ops_distinfo;
+mod ops_plist;
 
 fn run(op: &str, args: &[&str]) -> String {
     if let Some(r) = ops_pattern::run(op, args) {
+        return r;
+    }
+    if let Some(r) = ops_plist::run(op, args) {
         return r;
     }
     if let Some(r) = ops_distinfo::run(op, args) {
